@@ -742,4 +742,147 @@ def decodeFieldsC : List Ty → Store → Option (List Val × Store)
       | none => none
 end
 
+
+/-! ### extension 3: the in-place reader API on an object that already holds a value
+
+`igris::deserialize(reader, obj)` (archive stack; also what every `r & field` of a `reflect` does, and what
+`deserialize<T>(buffer)` does with its `T ret;`) and `deserializer::operator&(T &obj)` / `deserialize(T &obj)`
+(serializer stack) decode INTO `obj`.  `clear = true` is the code after `fix: container deserialisers clear the
+destination`; `clear = false` the code before it (vector: `push_back` onto what is there, map: `insert` into what is
+there). -/
+
+mutual
+/-- a default-constructed object of the type (`T value;`, `K first; T second;`, `T obj{}`): empty containers;
+scalars are written in full before they are read, 0 stands for "whatever" -/
+def fresh : Ty → Val
+  | .sc _ => .sc 0
+  | .str => .bytes []
+  | .buf => .bytes []
+  | .vec _ => .list []
+  | .pair a b => .list [fresh a, fresh b]
+  | .tuple ts => .list (freshs ts)
+  | .map _ _ => .list []
+  | .struct fs => .list (freshs fs)
+def freshs : List Ty → List Val
+  | [] => []
+  | t :: ts => fresh t :: freshs ts
+end
+
+mutual
+/-- `igris::deserialize(keeper, obj)` over the bounded `binary_buffer_reader`, `obj` holding `d` -/
+def decodeInto (clear : Bool) : Ty → Val → List Byte → Option (Val × List Byte)
+  -- `load_data((char*)&i, sizeof(i))`: all sizeof bytes are written (zero-filled beyond the input)
+  | .sc k, _, rem =>
+    match loadScalarB k rem with
+    | some (n, r) => some (.sc n, r)
+    | none => none
+  -- `str.resize(size); keeper.load_data(str.data(), str.size())`: every byte of the resized string is written
+  | .str, _, rem =>
+    match loadStringB rem with
+    | some (bs, r) => some (.bytes bs, r)
+    | none => none
+  -- `buf.ref = igris::buffer(pointer(), len)`: the view is replaced
+  | .buf, _, rem =>
+    match loadViewB rem with
+    | some (bs, r) => some (.bytes bs, r)
+    | none => none
+  -- `uint16_t size; deserialize(keeper, size); [vec.clear();] for (i < size) { T value; deserialize(keeper, value); vec.push_back(value); }`
+  | .vec t, d, rem =>
+    match loadScalarB .u16 rem with
+    | none => none
+    | some (n, r) =>
+      match repeatN (decodeInto clear t (fresh t)) n r with
+      | some (xs, r2) => some (.list ((if clear then [] else d.items) ++ xs), r2)
+      | none => none
+  -- `deserialize(keeper, pair.first); deserialize(keeper, pair.second);` — into the members that are there
+  | .pair a b, d, rem =>
+    match decodeInto clear a d.fst rem with
+    | none => none
+    | some (x, r) =>
+      match decodeInto clear b d.snd r with
+      | some (y, r2) => some (.list [x, y], r2)
+      | none => none
+  | .tuple ts, d, rem =>
+    match decodeIntoFields clear ts d.items rem with
+    | some (xs, r) => some (.list xs, r)
+    | none => none
+  -- `[map.clear();] for (i < size) { K first; T second; deserialize first, second; map.insert(make_pair(first, second)); }`
+  | .map k t, d, rem =>
+    match loadScalarB .u16 rem with
+    | none => none
+    | some (n, r) =>
+      match repeatN (fun rem =>
+          match decodeInto clear k (fresh k) rem with
+          | none => none
+          | some (x, r) =>
+            match decodeInto clear t (fresh t) r with
+            | some (y, r2) => some (Val.list [x, y], r2)
+            | none => none) n r with
+      | some (kvs, r2) => some (.list (kvs.foldl (fun m kv => mapInsert k kv m) (if clear then [] else d.items)), r2)
+      | none => none
+  -- `ref.reflect(*this)`: `r & field` is `deserialize(*this, field)` into the member that is there
+  | .struct fs, d, rem =>
+    match decodeIntoFields clear fs d.items rem with
+    | some (xs, r) => some (.list xs, r)
+    | none => none
+def decodeIntoFields (clear : Bool) : List Ty → List Val → List Byte → Option (List Val × List Byte)
+  | [], _, rem => some ([], rem)
+  | t :: ts, ds, rem =>
+    match decodeInto clear t (ds.headD default) rem with
+    | none => none
+    | some (x, r) =>
+      match decodeIntoFields clear ts ds.tail r with
+      | some (xs, r2) => some (x :: xs, r2)
+      | none => none
+end
+
+/-- `deserialize_buffer_storage::load(char *data, size_t size)` into an object whose `size`-byte image is `old`:
+`len = MIN(size, remaining); memcpy(data, …, len);` — the bytes the input does not cover KEEP their value -/
+def loadIntoS (rem : List Byte) (size : Nat) (old : List Byte) : Option (List Byte × List Byte) :=
+  let len := (rem.take size).length
+  match readN len rem with
+  | some (bs, r) => some (bs ++ (old.drop len).take (size - len), r)
+  | none => none
+
+mutual
+/-- `deserializer::deserialize(T &obj)` / `operator&(T &obj)` over a `deserialize_buffer_storage`, `obj` holding `d` -/
+def decodeIntoS (clear : Bool) : Ty → Val → List Byte → Option (Val × List Byte)
+  -- `Protocol::load(*this, obj)`: `archive.load((char*)&obj, sizeof(Type))`
+  | .sc k, d, rem =>
+    match loadIntoS rem k.width (leBytes k.width d.bits) with
+    | some (bs, r) => some (.sc (leVal bs), r)
+    | none => none
+  -- `auto size = archive.deserialize<uint16_t>();` (a fresh `uint16_t obj{}`) `[container.clear();]`
+  -- `for (i < size) { Type elem = archive.deserialize<Type>(); container.push_back(elem); }` (`T obj{}` per element)
+  | .vec t, d, rem =>
+    match loadS rem 2 with
+    | none => none
+    | some (bs, r) =>
+      match repeatN (decodeIntoS clear t (fresh t)) (leVal bs) r with
+      | some (xs, r2) => some (.list ((if clear then [] else d.items) ++ xs), r2)
+      | none => none
+  -- `obj.serialize_reflect(*this)`: `arch & field` into the member that is there
+  | .struct fs, d, rem =>
+    match decodeIntoFieldsS clear fs d.items rem with
+    | some (xs, r) => some (.list xs, r)
+    | none => none
+  | _, _, rem => some (default, rem)
+def decodeIntoFieldsS (clear : Bool) : List Ty → List Val → List Byte → Option (List Val × List Byte)
+  | [], _, rem => some ([], rem)
+  | t :: ts, ds, rem =>
+    match decodeIntoS clear t (ds.headD default) rem with
+    | none => none
+    | some (x, r) =>
+      match decodeIntoFieldsS clear ts ds.tail r with
+      | some (xs, r2) => some (x :: xs, r2)
+      | none => none
+end
+
+/-! widths the model embeds (compared with the compiled code by op `consts`): the count on the wire is 2 bytes on
+both stacks (`u16`), `dump_data` / `do_data` / `load_data` take their size as a 2-byte `uint16_t` (`dumpData`,
+`loadDataB` apply `u16`), `skip` takes a 4-byte `int`, `archive::data::sz` is a `size_t`; the storage's `load` takes a
+`size_t`, its cursor is a `size_t` (`subSize` wraps at 2^64), `avail()` returns a 4-byte `int`. -/
+def constsLine : String :=
+  "cnt=2,2,2 dump_data_sz=2 do_data_sz=2 load_data_sz=2 skip=4 data_sz=8 cnt=2 load_sz=8 avail=4 cursor=8"
+
 end Igris.C09
